@@ -18,7 +18,26 @@ theorem range_vals_getElem? (r : RangeRun) (n k : Nat) (dl : Ev)
 
 theorem range_model_clause (r : RangeRun) (h : RangeWF r) :
     Clause { op := .rangeWithInterval, d := r.p, a := r.a, b := r.b } (rangeTrace r) := by
-  refine ⟨grammarOK_down _ r.unsub _ rfl, silentOK_stopCut _ r.stop r.unsub _ rfl rfl, ?_⟩
+  refine ⟨grammarOK_down _ r.unsub _ rfl, silentOK_stopCut _ r.stop r.unsub _ rfl rfl ?_, ?_⟩
+  · intro c x hs
+    have hfair := h.selectFair c x hs
+    have hvals : ∀ n, lateCount c ((r.ticks.take n).mapIdx (fun k t => Ev.at t (.next (rangeVal r.a r.b k)))) ≤ cancelSlack := by
+      intro n
+      rw [lateCount_mapIdx c _ _ (fun _ _ => rfl)]
+      exact Nat.le_trans ((List.take_sublist n r.ticks).filter _).length_le hfair
+    unfold rangeAttempts
+    simp only
+    split
+    · have := lateCount_le_length c [Ev.at r.sub .complete]; simp at this; omega
+    · split
+      · rw [lateCount_append]
+        have h2 := lateCount_le_length c [Ev.at ((r.ticks[(r.b - r.a).natAbs - 1]?).getD 0) .complete]
+        have := hvals (r.b - r.a).natAbs
+        simp at h2; omega
+      · rw [lateCount_append]
+        have := lateCount_stopAttempt c r.stop
+        have := hvals (r.b - r.a).natAbs
+        omega
   apply opOK_of_getElem?
   intro k dl hk
   have h1 := down_getElem? hk
